@@ -194,11 +194,11 @@ class OFXHeaderV2(OFXHeaderBase):
 
     regex = re.compile(
         r"""<\?OFX\s+
-                       OFXHEADER=\"(?P<ofxheader>\d+)\"\s+
-                       VERSION=\"(?P<version>\d+)\"\s+
-                       SECURITY=\"(?P<security>[\w]+)\"\s+
-                       OLDFILEUID=\"(?P<oldfileuid>[\w-]+)\"\s+
-                       NEWFILEUID=\"(?P<newfileuid>[\w-]+)\"\s*
+                       OFXHEADER=[\"'](?P<ofxheader>\d+)[\"']\s+
+                       VERSION=[\"'](?P<version>\d+)[\"']\s+
+                       SECURITY=[\"'](?P<security>[\w]+)[\"']\s+
+                       OLDFILEUID=[\"'](?P<oldfileuid>[\w-]+)[\"']\s+
+                       NEWFILEUID=[\"'](?P<newfileuid>[\w-]+)[\"']\s*
                        \?>\s*""",
         re.VERBOSE,
     )
